@@ -422,12 +422,21 @@ fn observe<W: WX>(prop: &str, s: &St<W>, viol: &mut Vec<Viol>) {
             bad!("BitFieldVec::eq", "not equal to a fresh vector with the same values");
         }
         if w > 0 {
-            for j in [0usize, n / 2, n.wrapping_sub(1)] {
+            // elements to perturb: first, middle, last, the element lying across the boundary of the last
+            // (partially used) word and its neighbours; both the lowest and the highest bit of the field
+            let last_word_bit = (n * w / W::BITS) * W::BITS;
+            let js = last_word_bit / w;
+            let mut cand = vec![0usize, n / 2, n.wrapping_sub(1), js.wrapping_sub(1), js, js + 1, kcross::<W>(w)];
+            cand.sort();
+            cand.dedup();
+            for j in cand {
                 if j < n {
-                    let mut d = fresh.clone();
-                    d.set(j, m[j] ^ W::ONE);
-                    if b == d || !(b != d) {
-                        bad!("BitFieldVec::eq", "equal to a vector differing in element {j}");
+                    for flip in [W::ONE, W::ONE << (w - 1)] {
+                        let mut d = fresh.clone();
+                        d.set(j, m[j] ^ flip);
+                        if b == d || !(b != d) || d == b {
+                            bad!("BitFieldVec::eq", "equal to a vector differing in element {j} (bit mask {flip:?})");
+                        }
                     }
                 }
             }
